@@ -646,8 +646,21 @@ class Normalizer:
         # x = A if c else B with a helper call in a branch: make the branches statements so the helper can be dissolved
         if isinstance(s, (ast.Assign, ast.Return, ast.Expr, ast.AugAssign, ast.AnnAssign)) and isinstance(getattr(s, "value", None), ast.IfExp):
             v = s.value
-            if any(isinstance(c, ast.Call) and (hasattr(c, "_sa_q") or hasattr(c, "_sa_closure")) and not getattr(c, "_sa_skip", False)
-                   for br in (v.body, v.orelse) for c in ast.walk(br)):
+            cands = [c for br in (v.body, v.orelse) for c in ast.walk(br)
+                     if isinstance(c, ast.Call) and (hasattr(c, "_sa_q") or hasattr(c, "_sa_closure")) and not getattr(c, "_sa_skip", False)]
+            if cands:
+                # an expression-like helper is substituted where it stands (the conditional expression keeps its form: `x if c else f()` reads
+                # the same to every rule afterwards); only a helper that needs statements forces the split into an if statement
+                r0 = self.inline_in_header(s)
+                if r0 is not None:
+                    pre0, s20 = r0
+                    for x in pre0:
+                        for n in ast.walk(x):
+                            if isinstance(n, ast.stmt):
+                                n._sa_inl = True
+                    return pre0 + (s20 or [])
+                for c in cands:
+                    c._sa_skip = False
                 a, b = copy.copy(s), copy.copy(s)
                 a.value, b.value = v.body, v.orelse
                 new = ast.copy_location(ast.If(test=v.test, body=[a], orelse=[b]), s)
@@ -655,6 +668,9 @@ class Normalizer:
         # calls in the statement's own expressions (one per round; the function-level loop iterates)
         r = self.inline_in_header(s)
         if r is None:
+            loop = self.comprehension_to_loop(s)
+            if loop is not None:
+                return self.tx_block(loop)
             return [s]
         pre, s2 = r
         for x in pre:
@@ -662,6 +678,44 @@ class Normalizer:
                 if isinstance(n, ast.stmt):
                     n._sa_inl = True
         return pre + (s2 or [])
+
+    def comprehension_to_loop(self, s):
+        """v = [elt for x in it if c]  whose element calls a helper that needs statements (an early return, a raise): written as
+        v = []; for x in it: if c: v.append(elt)  so that the helper can be dissolved where it is called"""
+        if not (isinstance(s, ast.Assign) and len(s.targets) == 1 and isinstance(s.targets[0], ast.Name)):
+            return None
+        v = s.value
+        if isinstance(v, ast.Call) and isinstance(v.func, ast.Name) and v.func.id == "list" and len(v.args) == 1 and not v.keywords and isinstance(v.args[0], ast.GeneratorExp):
+            v = v.args[0]
+        if not isinstance(v, (ast.ListComp, ast.GeneratorExp)) or (isinstance(v, ast.GeneratorExp) and v is s.value):
+            return None
+        if len(v.generators) != 1 or v.generators[0].is_async:
+            return None
+        g = v.generators[0]
+        stuck = [c for part in [v.elt] + list(g.ifs) for c in ast.walk(part)
+                 if isinstance(c, ast.Call) and (hasattr(c, "_sa_q") or hasattr(c, "_sa_closure")) and getattr(c, "_sa_skip", False)]
+        if not stuck:
+            return None
+        name = s.targets[0].id
+        if any(isinstance(x, ast.Name) and x.id == name for x in ast.walk(v)):
+            return None
+        for c in stuck:
+            c._sa_skip = False
+        app = ast.Expr(value=ast.Call(func=ast.Attribute(value=ast.Name(id=name, ctx=ast.Load()), attr="append", ctx=ast.Load()), args=[v.elt], keywords=[]))
+        inner = [app]
+        for c in reversed(g.ifs):
+            inner = [ast.If(test=c, body=inner, orelse=[])]
+        loop = ast.For(target=g.target, iter=g.iter, body=inner, orelse=[])
+        init = ast.Assign(targets=[ast.Name(id=name, ctx=ast.Store())], value=ast.List(elts=[], ctx=ast.Load()))
+        out = [init, loop]
+        for x in out:
+            ast.copy_location(x, s)
+            for n in ast.walk(x):
+                if not hasattr(n, "lineno"):
+                    ast.copy_location(n, s)
+            ast.fix_missing_locations(x)
+        self.note(f"comprehension at line {getattr(s, 'lineno', '?')} written as a loop so that its helper can be dissolved")
+        return out
 
     # header expressions of a statement, in evaluation order
     @staticmethod
